@@ -38,6 +38,8 @@ type State struct {
 	now    Term
 }
 
+// results of the latest call per callee are kept as pseudo heap entries "last|<callee>" (merged at joins like the heap)
+
 func (s *State) clone() *State {
 	n := &State{heap: make(map[string]Term, len(s.heap)), locals: make(map[*ssa.Alloc]Term, len(s.locals)), now: s.now}
 	for k, v := range s.heap {
@@ -353,6 +355,8 @@ func (e *Enc) keySort(key string) Sort {
 			return e.sortOf(derefType(gl.Type()))
 		}
 		panic("unknown global " + key)
+	case "last":
+		return Sort(parts[2])
 	case "gh":
 		gv := e.p.Contracts.Ghosts[parts[1]]
 		if gv == nil {
@@ -584,7 +588,7 @@ func (e *Enc) obligeNamed(name, kind, detail string, pos token.Pos, goal Term, p
 	ob := &Obligation{Name: name, Kind: kind, Detail: detail, Func: e.name, Pos: e.p.Pos(pos), Props: props, Src: src, enc: e}
 	if e.skipObligations {
 		switch kind {
-		case "frame", "effect", "lock", "guard", "post", "typeinv", "typeinv-new", "cand", "monotone", "writers", "at":
+		case "frame", "effect", "lock", "guard", "post", "typeinv", "typeinv-new", "cand", "monotone", "writers", "at", "callers", "flows", "opaque", "contract-applies":
 		default:
 			e.assume(goal)
 		}
@@ -605,7 +609,7 @@ func (e *Enc) obligeNamed(name, kind, detail string, pos token.Pos, goal Term, p
 	// preconditions, invariants); pure proof goals (frames, effects, locks, postconditions) are not assumed,
 	// so that one failing goal does not make the goals after it vacuous.
 	switch kind {
-	case "frame", "effect", "lock", "guard", "post", "typeinv", "typeinv-new", "cand", "monotone", "writers", "at", "callers", "flows", "opaque":
+	case "frame", "effect", "lock", "guard", "post", "typeinv", "typeinv-new", "cand", "monotone", "writers", "at", "callers", "flows", "opaque", "contract-applies", "pure":
 	default:
 		e.assume(goal)
 	}
@@ -1069,7 +1073,8 @@ func (e *Enc) entryHeapOld(key string, c Term) {
 			return
 		}
 		if b := old(fmt.Sprintf("(select %s qo)", c.S), e.p.SortOf(ft)); b != "" {
-			e.assert(mk(SBool, fmt.Sprintf("(forall ((qo Int)) (! %s :pattern ((select %s qo))))", b, c.S)))
+			// (only for objects that existed at entry: the field arrays are not havocked for objects a callee allocates)
+			e.assert(mk(SBool, fmt.Sprintf("(forall ((qo Int)) (! (=> (< (birth qo) %s) %s) :pattern ((select %s qo))))", e.now0.S, b, c.S)))
 		}
 	case "G":
 		g, _ := e.p.SSAPkg.Members[parts[1]].(*ssa.Global)
@@ -1087,7 +1092,7 @@ func (e *Enc) entryHeapOld(key string, c Term) {
 		if len(parts) >= 4 && (strings.HasSuffix(parts[3], "Rint") || strings.HasSuffix(parts[3], "Rbool")) {
 			return
 		}
-		e.assert(mk(SBool, fmt.Sprintf("(forall ((qm Int) (qk %s)) (! (< (birth (select (select %s qm) qk)) %s) :pattern ((select (select %s qm) qk))))", parts[1], c.S, e.now0.S, c.S)))
+		e.assert(mk(SBool, fmt.Sprintf("(forall ((qm Int) (qk %s)) (! (=> (< (birth qm) %s) (< (birth (select (select %s qm) qk)) %s)) :pattern ((select (select %s qm) qk))))", parts[1], e.now0.S, c.S, e.now0.S, c.S)))
 	case "E":
 		if len(parts) < 3 || Sort(parts[1]) != SInt {
 			return
@@ -1096,7 +1101,7 @@ func (e *Enc) entryHeapOld(key string, c Term) {
 		case "int", "rune", "byte", "int32", "int64", "uint8", "uint", "uint32", "uint64", "int8", "int16", "uint16", "TokenType":
 			return
 		}
-		e.assert(mk(SBool, fmt.Sprintf("(forall ((qa Int) (qi Int)) (! (< (birth (select (select %s qa) qi)) %s) :pattern ((select (select %s qa) qi))))", c.S, e.now0.S, c.S)))
+		e.assert(mk(SBool, fmt.Sprintf("(forall ((qa Int) (qi Int)) (! (=> (< (birth qa) %s) (< (birth (select (select %s qa) qi)) %s)) :pattern ((select (select %s qa) qi))))", e.now0.S, c.S, e.now0.S, c.S)))
 	case "CV":
 		if len(parts) >= 4 && Sort(parts[3]) == SInt {
 			// cells hold whatever type: only assert for pointer-like cells is not decidable from the key; skip
